@@ -53,6 +53,8 @@ def check(case):
     if case["kind"] in ("hashseed", "history"):
         got = probe(REPO, case["hashseed"], case["history_seed"], case["history_len"])
         for k in sorted(k for k, v in ref.items() if isinstance(v, str)):
+            if got.get(k) is None:
+                continue        # named request skipped in this history (name already handed out)
             if got[k] != ref[k]:
                 return False, (f"{k} differs ({case['kind']} {case}): {got[k][:300]} vs reference "
                                f"{ref[k][:300]}")
